@@ -23,6 +23,18 @@ conflicting datum, the same datum again in the other file's units, a second
 group split over the first and last file}.  Each shard of this part is walked
 in ONE child interpreter of its own (the loads of a shard form one process
 history; witnesses carry that history).
+Part 5 (path spellings, fifth wave): the files of a library are named in every
+way a path can be written - every include tree with 2-3 files x every
+included file stored next to its includer, in a subdirectory of its own or in
+a directory BESIDE the includer's (outside the library's own directory for the
+top file's includes) x every include string written as plain relative path,
+with a leading ./, as the ABSOLUTE path, or as a ..-relative path that leaves
+the directory and enters it again x the top file given to Load by absolute
+path, by a path relative to the current directory (from the parent directory;
+by its bare file name or ./name from its own directory; by ../name from a
+subdirectory) x every file holding one block of the group's data x {no
+injection, conflicting datum} (thorough also: duplicate equal datum, and all
+assignments of the blocks to the files).
 """
 import itertools
 import json
@@ -53,13 +65,22 @@ BOUND = {'quick': '4 reference-temperature placements x 2 classes; 17 pieces x '
                   'files holding the data, k=1: x {top file, included file} x '
                   '{none, other group}; k=2: x 2 include orders x 3 nestings x '
                   '4 injections; k=3: x 6 include orders x flat nesting x '
-                  '{none, conflict} (2120 loads, in 7 child interpreters)',
+                  '{none, conflict} (2120 loads, in 7 child interpreters); '
+                  'path spellings: all 3 include trees with 2-3 files x '
+                  '(3 storage places x 4 include-string spellings)^(n-1) x 5 '
+                  'ways of naming the top file to Load (3 of them after a '
+                  'change of the current directory) x every file holds block '
+                  'number (its pre-order number) x {none, conflict} (3000 '
+                  'loads)',
          'thorough': 'same alphabet, BFS to the fixpoint (complete reachable '
                      'state graph); file level additionally with zero-valued '
                      'reference values in every nesting; include trees: all '
                      '22 trees with 2-5 files, same product, injections {none, '
                      'conflict, duplicate-equal}; unit systems: as quick, k=3 '
-                     'with all 4 nestings x all 4 injections (12620 loads)'}
+                     'with all 4 nestings x all 4 injections (12620 loads); '
+                     'path spellings: as quick x all n! assignments of the '
+                     'blocks to the files x {none, conflict, duplicate-equal} '
+                     '(26280 loads)'}
 RULE = ('explicit-state search: a state is the canonical form (H_ref, S_ref, '
         'Cp table, range, T_ref to 12 significant digits + attribute names) of '
         'the real object obtained by replaying an event history on a fresh '
@@ -74,7 +95,11 @@ RULE = ('explicit-state search: a state is the canonical form (H_ref, S_ref, '
         'when the files that hold the group\'s data use more than one unit '
         'system; every shard of that part runs in a child interpreter, in '
         'which its cases are loaded one after the other in the enumeration '
-        'order')
+        'order; path-spelling cases always take the group\'s data from every '
+        'file of the tree (all non-trivial); the numbers of cases with an '
+        'absolute include string, with .. in an include string, with a file '
+        'outside the top file\'s directory and with a changed current '
+        'directory are counted separately')
 ASSUMPTIONS = ['all pieces of one run share one reference temperature (as the '
                'quantifier states); files with two different reference '
                'temperatures are judged differentially only (all include orders '
@@ -101,7 +126,15 @@ ASSUMPTIONS = ['all pieces of one run share one reference temperature (as the '
                'restated in another unit system is "the same datum": the '
                'reference numbers are whole calories chosen so that in every '
                'system the number written converts back to exactly the same '
-               'SI value (asserted by the domain module)']
+               'SI value (asserted by the domain module)',
+               'path spellings: a relative include string is relative to the '
+               'directory of the including file, an absolute one names the '
+               'file itself; a relative path given to Load is relative to the '
+               'current directory of the process, which the case changes and '
+               'restores (the scratch directories contain no symbolic links, '
+               'so a/../b and b name the same file); the scheme file lies '
+               'next to the top file; the expected content is the same union '
+               'as for the include trees, however the files are named']
 MANIFEST = dict(
     technique='explicit-state BFS over the real update()/Load transition '
               'functions against a dictionary-union reference model',
@@ -124,12 +157,20 @@ MANIFEST = dict(
          'files, every include order), are loaded in child interpreters and '
          'compared with the union computed from the numbers as written; a '
          'conflicting datum in another unit system must be rejected, the same '
-         'datum in another unit system must change nothing.',
+         'datum in another unit system must change nothing. Every way '
+         'of naming the files (2-3 files: included files beside, below or '
+         'outside the includer\'s directory; include strings plain, ./, '
+         'absolute, or leaving and re-entering the directory through ..; top '
+         'file named absolutely or relative to three different current '
+         'directories, incl. by its bare name) is loaded and compared with '
+         'the same union / must reject the same conflict.',
     note='One shared reference temperature per run; data values come from a '
          'small alphabet incl. zero; more than 4 (quick) / 5 (thorough) files '
          'or include depth beyond 3 (quick) / 4 (thorough), a file reachable '
-         'along two include paths, absolute or ..-relative include strings '
-         'are not covered. Unit systems: 5 systems over energy units {J, '
+         'along two include paths are not covered; absolute and ..-relative '
+         'include strings and paths relative to the current directory only '
+         'for trees of <= 3 files, without symbolic links, builtin-library '
+         'names or directories as include targets. Unit systems: 5 systems over energy units {J, '
          'kJ, cal, kcal} and temperature {K, kK}, non-zero values only, at '
          'most 3 files, one T_ref; the libraries of one shard are loaded in '
          'one process in the one enumeration order (other orders of the same '
@@ -703,6 +744,161 @@ def run_trees(R, parents, tier):
                     tree_case(R, parents, placement, holders, inj)
 
 
+# -------------------------------------------------------- path spellings
+#
+# "A library assembled from several included files ... whatever the include
+# order or nesting": everything above gives the top file to Load by ABSOLUTE
+# path and writes every include as the plain relative path to a file in or
+# below the includer's directory.  Here the same trees are NAMED in every way
+# (mc/domains/w5_c13.py): included files beside / below / outside the
+# includer's directory, include strings plain, with ./, absolute, or through
+# .., and the top file named absolutely or relative to the current directory
+# of the process (three different ones).  What the library must hold does not
+# depend on any of that.
+#
+# A case changes the current directory of the worker process and restores it
+# before it returns (also when Load raises); nothing else of the process is
+# touched, and the witness carries everything the case needs.
+
+PATH_N = 3
+PATH_INJ = {'quick': ['none', 'conflict'],
+            'thorough': ['none', 'conflict', 'duplicate-equal']}
+
+
+def path_files(parents, placement, spelling, holders, inj):
+    """-> (files relative to TOP, expect); like tree_files with the file
+    names and include strings of w5_c13.place."""
+    from ..domains import w5_c13 as P
+    vals = VALS['nonzero']
+    paths, includes = P.place(parents, placement, spelling)
+    ch = P.children(parents)
+    parts = TREE_PARTS[len(holders)]
+    blocks = {v: (GROUP, list(b), vals) for v, b in zip(holders, parts)}
+    expect = 'union'
+    if inj in ('conflict', 'duplicate-equal'):
+        d0 = parts[0][0]
+        g, data, v = blocks[holders[-1]]
+        v2 = dict(v)
+        if inj == 'conflict':
+            v2[d0] = OTHER[d0]
+            expect = 'conflict'
+        blocks[holders[-1]] = (g, data + [d0], v2)
+    files = {}
+    for v in range(len(parents)):
+        if v in blocks:
+            b = [blocks[v]]
+        elif ch[v]:
+            b = []
+        else:
+            b = [(OTHER_GROUP, ['H', 'S'], OTHER)]
+        files[paths[v]] = file_text(b, [includes[c] for c in ch[v]])
+    return files, expect
+
+
+def load_files_named(files, root):
+    """Write `files` (names relative to the scratch directory TOP, the marker
+    P.TOP in texts replaced by its real absolute name) and give the top file
+    to Load the way `root` says.  The current directory is restored."""
+    import pgradd.ThermoChem   # noqa
+    from pgradd.GroupAdd.Library import GroupLibrary
+    from ..domains import w5_c13 as P
+    cwd_rel, path = P.root(root)
+    old = os.getcwd()
+    with tempfile.TemporaryDirectory(prefix='pgv_c13p_') as top:
+        top = os.path.realpath(top)
+        os.makedirs(os.path.join(top, P.LIBDIR, P.CWD_SUB))
+        with open(os.path.join(top, P.LIBDIR, 'scheme.yaml'), 'w') as f:
+            f.write(SCHEME)
+        for n, t in files.items():
+            os.makedirs(os.path.join(top, os.path.dirname(n)), exist_ok=True)
+            with open(os.path.join(top, n), 'w') as f:
+                f.write(t.replace(P.TOP, top))
+        try:
+            if cwd_rel is not None:
+                os.chdir(os.path.join(top, cwd_rel))
+            return GroupLibrary.Load(path.replace(P.TOP, top))
+        finally:
+            os.chdir(old)
+
+
+def path_case(R, parents, placement, spelling, root, holders, inj):
+    from pgradd.Error import ReadOnlyDataError
+    from ..domains import w5_c13 as P
+    parents, holders = tuple(parents), tuple(holders)
+    placement, spelling = tuple(placement), tuple(spelling)
+    k = len(holders)
+    files, expect = path_files(parents, placement, spelling, holders, inj)
+    incl = P.place(parents, placement, spelling)[1][1:]
+    desc = dict(tree=list(parents), placement=list(placement),
+                include_strings=incl, load=list(P.root(root)),
+                holders=list(holders), injection=inj, files=sorted(files))
+    wit = dict(kind='paths', parents=list(parents), placement=list(placement),
+               spelling=list(spelling), root=root, holders=list(holders),
+               injection=inj)
+    R.evals += 1
+    if k > 1:
+        R.nontrivial += 1
+    R.extra['path cases with an absolute include string'] += 'abs' in spelling
+    R.extra['path cases with .. in an include string'] += any(
+        '..' in s for s in incl)
+    R.extra['path cases with a file outside the top file\'s directory'] += any(
+        not n.startswith(P.LIBDIR + '/') for n in files)
+    R.extra['path cases with a changed current directory'] += (
+        P.root(root)[0] is not None)
+    try:
+        lib = load_files_named(files, root)
+        got = 'loaded'
+    except ReadOnlyDataError:
+        got = 'ReadOnlyDataError'
+    except Exception as e:    # noqa
+        got = 'EXC:' + type(e).__name__
+    R.outcomes['paths:%s:%s' % (inj, got)] += 1
+    key = None
+    if expect == 'conflict':
+        if got != 'ReadOnlyDataError':
+            key = 'paths-conflict-not-rejected'
+            msg = ('two different values for %s were given (by file number '
+                   '%d and file number %d of the tree) but Load %s'
+                   % (TREE_PARTS[k][0][0], holders[0], holders[-1], got))
+    elif got != 'loaded':
+        key = 'paths-spurious-' + got
+        msg = 'conflict-free files were not loaded: ' + got
+    else:
+        want = (r12(vals_of('H')), r12(vals_of('S')),
+                tuple((r12(float(d[2:])), r12(vals_of(d))) for d in DATA[2:]),
+                (200.0, 1000.0), FT)
+        have = dump_group(lib)
+        has_other = any(OTHER_GROUP in t for t in files.values())
+        if have != want:
+            key = 'paths-wrong-union'
+            msg = 'library holds %r, union of the files is %r' % (have, want)
+        elif has_other and dump_group(lib, OTHER_GROUP) != (
+                r12(OTHER['H']), r12(OTHER['S']), (), (200.0, 1000.0), FT):
+            key = 'paths-lost-group'
+            msg = 'the other group is missing or wrong: %r' % (
+                dump_group(lib, OTHER_GROUP),)
+        else:
+            probs = getters_agree(lib[GROUP]['thermochem'], want[:4], FT)
+            if probs:
+                key, msg = 'paths-getters-disagree', probs[0]
+    if key:
+        icls = ('absolute-include' if 'abs' in spelling else
+                'dotdot-include' if any('..' in s for s in incl) else
+                'plain-include')
+        R.violation('%s:load-%s:%s' % (key, root, icls),
+                    '%s: %s' % (desc, msg), wit)
+    R.sample(desc, limit=1)
+
+
+def run_paths(R, parents, root, tier):
+    from ..domains import w5_c13 as P
+    n = len(parents)
+    for placement, spelling in P.edge_labels(n):
+        for holders in P.holder_orders(n, tier):
+            for inj in PATH_INJ[tier]:
+                path_case(R, parents, placement, spelling, root, holders, inj)
+
+
 # --------------------------------------------------------- unit systems
 #
 # "the union of the data given for it in all the files": a file gives its data
@@ -1053,6 +1249,11 @@ def shards(tier, seed):
     out.append(('units', 2, None))
     for first in U.SYSTEM_NAMES:
         out.append(('units', 3, first))
+    from ..domains import w5_c13 as P
+    for n in range(2, PATH_N + 1):
+        for parents in W.trees(n):
+            for root in P.ROOTS:
+                out.append(('paths', parents, root))
     return out
 
 
@@ -1068,6 +1269,8 @@ def run_shard(shard, tier):
         run_trees(R, shard[1], tier)
     elif shard[0] == 'units':
         run_units_isolated(R, shard[1], shard[2], tier)
+    elif shard[0] == 'paths':
+        run_paths(R, shard[1], shard[2], tier)
     else:
         run_update(R)
     return R
@@ -1094,6 +1297,9 @@ def replay(w):
         # the whole history: every case of the shard before this one is loaded
         # first, in this (fresh) process
         run_units(R, w['k'], w['first'], w['tier'], upto=w['index'])
+    elif w['kind'] == 'paths':
+        path_case(R, w['parents'], w['placement'], w['spelling'], w['root'],
+                  w['holders'], w['injection'])
     else:
         run_update(R)
     return dict(violates=bool(R.violations),
